@@ -424,6 +424,8 @@ struct Pool {
     opcert: Vec<(Vec<u8>, String)>,
     messages: Vec<(usize, String)>, // (message type, honest JSON document)
     prover_data: Vec<Vec<u8>>,
+    aggr_parts: Vec<AggrParts>,     // honest aggregate signatures taken apart (for the envelope generator)
+    mkmap_nest: Option<(Vec<u8>, Vec<u8>)>, // bincode of one nesting level of MKMapProof<BlockRange> (prefix), and of a leaf
 }
 
 fn honest<T: Serialize>(ty: Ty, t: &T, val: Value, cbor: Vec<u8>) -> Honest {
@@ -434,6 +436,7 @@ fn honest<T: Serialize>(ty: Ty, t: &T, val: Value, cbor: Vec<u8>) -> Honest {
 fn build_pool(rng: &mut Rng, thorough: bool) -> Pool {
     use mithril_common::test::builder::MithrilFixtureBuilder;
     let mut pool = Pool { by_ty: vec![vec![]; 11], ..Default::default() };
+    let mut aggr_parts: Vec<AggrParts> = vec![];
     let configs: &[(usize, u64, u64)] = if thorough { &[(1, 4, 2), (2, 8, 3), (3, 12, 4), (5, 20, 6), (8, 30, 9)] } else { &[(1, 4, 2), (3, 10, 4), (5, 16, 5)] };
     for (ci, &(n, m, k)) in configs.iter().enumerate() {
         let params = Parameters { m, k, phi_f: [0.95, 0.8, 0.99][ci % 3] };
@@ -491,6 +494,12 @@ fn build_pool(rng: &mut Rng, thorough: bool) -> Pool {
             }
             let bpv: vx::MerkleBatchPath<H> = serde_json::from_value(v["batch_proof"].clone()).unwrap();
             p[Ty::BatchPath as usize].push(honest(Ty::BatchPath, &bpv, v["batch_proof"].clone(), bpv.to_bytes().unwrap()));
+            let mut parts = AggrParts { val: v.clone(), sigs: vec![], bp_cbor: bpv.to_bytes().unwrap(), bp_legacy: e_bp(&v["batch_proof"]), real_cbor: aggr.to_bytes().unwrap() };
+            for sr in arr(&v["signatures"]) {
+                let sg: SingleSignature = serde_json::from_value(sr[0].clone()).unwrap();
+                parts.sigs.push(SigParts { sig_cbor: sg.to_bytes().unwrap(), sig_legacy: e_ssig(&sr[0]), reg_legacy: e_reg(&sr[1]).buf, vk: bytes_of(&sr[1][0]), stake: u(&sr[1][1]) });
+            }
+            aggr_parts.push(parts);
             p[Ty::Aggr as usize].push(honest(Ty::Aggr, &aggr, v, aggr.to_bytes().unwrap()));
         }
     }
@@ -532,6 +541,32 @@ fn build_pool(rng: &mut Rng, thorough: bool) -> Pool {
         }
     }
     let _ = &pool.prover_data;
+    {
+        // one level = master proof ++ varint(1 sub-proof) ++ key ++ <nested>; a leaf = master proof ++ varint(0).
+        // smallest master proof: empty root, no leaves, size 0, no items; checked against the real decoder here
+        let candidates: Vec<(Vec<u8>, Vec<u8>)> = {
+            let mut c = vec![(vec![0u8, 0, 0, 0, 1, 0, 15], vec![0u8, 0, 0, 0, 0])];
+            if let Some((b, _)) = pool.mkmapproof.first() {
+                // an honest proof with no sub-proof would end with varint(0): derive a level from it when it does
+                if b.last() == Some(&0) {
+                    let mut pre = b[..b.len() - 1].to_vec();
+                    pre.extend_from_slice(&[1, 0, 15]);
+                    c.push((pre, b.clone()));
+                }
+            }
+            c
+        };
+        for (pre, leaf) in candidates {
+            let mut two = pre.clone();
+            two.extend_from_slice(&pre);
+            two.extend_from_slice(&leaf);
+            if MKMapProof::<BlockRange>::from_bytes(&leaf).is_ok() && MKMapProof::<BlockRange>::from_bytes(&two).is_ok() {
+                pool.mkmap_nest = Some((pre, leaf));
+                break;
+            }
+        }
+    }
+    pool.aggr_parts = aggr_parts;
     pool
 }
 
@@ -559,8 +594,20 @@ fn valid_sk32(pool: &Pool, w: &[u8]) -> bool {
     b.extend_from_slice(&pool.vkpop);
     Initializer::from_bytes(&b).is_ok()
 }
-fn oracle_term(pool: &Pool, ty: Ty, b: &[u8]) -> String {
-    let mut items = vec![];
+fn oracle_term(pool: &Pool, ty: Ty, b: &[u8], env: Option<&EnvInfo>) -> String {
+    let mut items: Vec<String> = vec![];
+    oracle_items(pool, ty, b, &mut items);
+    if let Some(e) = env {
+        // the windows the inner decoders can query lie inside the envelope's byte strings
+        for r in &e.raw {
+            oracle_items(pool, ty, r, &mut items);
+        }
+        let mut seen = std::collections::HashSet::new();
+        items.retain(|x| seen.insert(x.clone()));
+    }
+    format!("[{}]", items.join("; "))
+}
+fn oracle_items(pool: &Pool, ty: Ty, b: &[u8], items: &mut Vec<String>) {
     let mut push = |kind: u64, w: &[u8]| items.push(format!("({}, {})", kind, coq::list(&w.iter().map(|x| x.to_string()).collect::<Vec<_>>())));
     if matches!(ty, Ty::SSig | Ty::SigReg | Ty::Aggr) && b.len() >= 48 {
         for i in 0..=b.len() - 48 {
@@ -589,14 +636,24 @@ fn oracle_term(pool: &Pool, ty: Ty, b: &[u8]) -> String {
     if ty == Ty::Init && b.len() >= 64 && valid_sk32(pool, &b[32..64]) {
         push(2, &b[32..64]);
     }
-    format!("[{}]", items.join("; "))
 }
-fn model_term(pool: &Pool, ty: Ty, b: &[u8], impl_obs: &str, wrapping: bool) -> String {
+fn model_term(pool: &Pool, ty: Ty, b: &[u8], impl_obs: &str, wrapping: bool, env: Option<&EnvInfo>) -> String {
+    if let Some(e) = env {
+        return format!(
+            "rc (run_env {} {} {} [{}] {}) ({})",
+            ty as u64,
+            if wrapping { "Wrapping" } else { "Checked" },
+            oracle_term(pool, ty, b, env),
+            e.entries.join("; "),
+            coq::list(&b.iter().map(|x| x.to_string()).collect::<Vec<_>>()),
+            impl_obs
+        );
+    }
     format!(
         "rc (run {} {} {} {}) ({})",
         ty as u64,
         if wrapping { "Wrapping" } else { "Checked" },
-        oracle_term(pool, ty, b),
+        oracle_term(pool, ty, b, None),
         coq::list(&b.iter().map(|x| x.to_string()).collect::<Vec<_>>()),
         impl_obs
     )
@@ -762,6 +819,14 @@ struct Input {
     /// Some(v): the input is an encoding of the honest value v (must decode to it)
     expect: Option<Value>,
     note: String,
+    /// Some: the input was assembled by the harness from CBOR envelopes (provenance for the model's
+    /// envelope oracle and for the blst windows inside the envelope's byte strings)
+    env: Option<EnvInfo>,
+}
+#[derive(Clone, Default)]
+struct EnvInfo {
+    entries: Vec<String>,  // Coq terms (key bytes, entry) of C05.ModelEnv.env
+    raw: Vec<Vec<u8>>,     // byte strings handed to inner decoders
 }
 
 fn mutate_bytes(rng: &mut Rng, base: &[u8], fields: &[usize]) -> (String, Vec<u8>, String) {
@@ -856,17 +921,17 @@ fn gen_for_ty(rng: &mut Rng, pool: &Pool, ty: Ty) -> Input {
     let hs = &pool.by_ty[ty as usize];
     let pick = rng.below(100);
     if hs.is_empty() || pick < 22 {
-        return Input { kind: "random".into(), bytes: random_bytes(rng), expect: None, note: String::new() };
+        return Input { kind: "random".into(), bytes: random_bytes(rng), expect: None, note: String::new(), env: None };
     }
     let h = rng.pick(hs).clone();
     let group = matches!(ty, Ty::Vk | Ty::VkPop);
     let use_legacy = group || rng.chance(3, 5);
     let (base, fields, form): (&[u8], &[usize], &str) = if use_legacy { (&h.legacy.buf, &h.legacy.fields, "legacy") } else { (&h.cbor, &[], "cbor") };
     if pick < 34 {
-        return Input { kind: format!("honest-{}", form), bytes: base.to_vec(), expect: Some(h.val.clone()), note: String::new() };
+        return Input { kind: format!("honest-{}", form), bytes: base.to_vec(), expect: Some(h.val.clone()), note: String::new(), env: None };
     }
     let (k, b, note) = mutate_bytes(rng, base, fields);
-    Input { kind: format!("{}-{}", form, k), bytes: b, expect: None, note }
+    Input { kind: format!("{}-{}", form, k), bytes: b, expect: None, note, env: None }
 }
 
 fn hex_wrap(rng: &mut Rng, b: &[u8], corrupt: bool) -> (String, &'static str) {
@@ -942,6 +1007,496 @@ fn mutate_json(rng: &mut Rng, doc: &str) -> (String, String) {
 }
 
 // ------------------------------------------------------------------------------------------------
+// CBOR envelopes assembled by the harness (structure-aware: every nesting level in either format)
+
+/// what ciborium emits for the envelope structs: definite maps with text keys, `Vec<u8>` as an array
+/// of unsigned integers
+fn cb_head(out: &mut Vec<u8>, major: u8, n: u64) {
+    let m = major << 5;
+    if n < 24 {
+        out.push(m | n as u8);
+    } else if n < 1 << 8 {
+        out.push(m | 24);
+        out.push(n as u8);
+    } else if n < 1 << 16 {
+        out.push(m | 25);
+        out.extend_from_slice(&(n as u16).to_be_bytes());
+    } else if n < 1 << 32 {
+        out.push(m | 26);
+        out.extend_from_slice(&(n as u32).to_be_bytes());
+    } else {
+        out.push(m | 27);
+        out.extend_from_slice(&n.to_be_bytes());
+    }
+}
+#[derive(Clone, Debug)]
+enum CbV {
+    U(u64),
+    Neg(u64),
+    Bytes(Vec<u8>), // Vec<u8> the serde way: array of unsigned integers
+    BStr(Vec<u8>),  // CBOR byte string
+    Arr(Vec<CbV>),
+    Raw(Vec<u8>),   // pre-encoded item
+}
+fn cb_val(out: &mut Vec<u8>, v: &CbV) {
+    match v {
+        CbV::U(n) => cb_head(out, 0, *n),
+        CbV::Neg(n) => cb_head(out, 1, *n),
+        CbV::Bytes(b) => {
+            cb_head(out, 4, b.len() as u64);
+            for x in b {
+                cb_head(out, 0, *x as u64);
+            }
+        }
+        CbV::BStr(b) => {
+            cb_head(out, 2, b.len() as u64);
+            out.extend_from_slice(b);
+        }
+        CbV::Arr(a) => {
+            cb_head(out, 4, a.len() as u64);
+            for x in a {
+                cb_val(out, x);
+            }
+        }
+        CbV::Raw(r) => out.extend_from_slice(r),
+    }
+}
+/// version byte 1 + a CBOR map
+fn cb_env(fields: &[(&str, CbV)]) -> Vec<u8> {
+    let mut o = vec![1u8];
+    cb_head(&mut o, 5, fields.len() as u64);
+    for (k, v) in fields {
+        cb_head(&mut o, 3, k.len() as u64);
+        o.extend_from_slice(k.as_bytes());
+        cb_val(&mut o, v);
+    }
+    o
+}
+
+#[derive(Clone)]
+struct SigParts {
+    sig_cbor: Vec<u8>,
+    sig_legacy: Enc,
+    reg_legacy: Vec<u8>,
+    vk: Vec<u8>,
+    stake: u64,
+}
+#[derive(Clone)]
+struct AggrParts {
+    val: Value,
+    sigs: Vec<SigParts>,
+    bp_cbor: Vec<u8>,
+    bp_legacy: Enc,
+    real_cbor: Vec<u8>,
+}
+#[derive(Clone, Copy, PartialEq, Eq, Debug)]
+enum Node {
+    Sig(usize),
+    Vk(usize),
+    Reg(usize),
+    SigReg(usize),
+    Bp,
+    Proof,
+}
+/// format of every node (true = CBOR), an optional replacement of one node's bytes, the type tag
+#[derive(Clone)]
+struct Plan {
+    aggr_c: bool,
+    proof_c: bool,
+    sigreg_c: Vec<bool>,
+    sig_c: Vec<bool>,
+    reg_c: Vec<bool>,
+    bp_c: bool,
+    repl: Option<(Node, Vec<u8>)>,
+    sig_type: u64,
+}
+impl Plan {
+    fn uniform(n: usize, c: bool) -> Plan {
+        Plan { aggr_c: c, proof_c: c, sigreg_c: vec![c; n], sig_c: vec![c; n], reg_c: vec![c; n], bp_c: c, repl: None, sig_type: 0 }
+    }
+    fn random(rng: &mut Rng, n: usize) -> Plan {
+        let mut p = Plan::uniform(n, false);
+        p.aggr_c = rng.coin();
+        p.proof_c = rng.coin();
+        p.bp_c = rng.coin();
+        for i in 0..n {
+            p.sigreg_c[i] = rng.coin();
+            p.sig_c[i] = rng.coin();
+            p.reg_c[i] = rng.coin();
+        }
+        p
+    }
+    fn describe(&self) -> String {
+        let f = |b: bool| if b { 'C' } else { 'L' };
+        let per: Vec<String> = (0..self.sig_c.len()).map(|i| format!("{}({}{})", f(self.sigreg_c[i]), f(self.sig_c[i]), f(self.reg_c[i]))).collect();
+        format!("aggr {} proof {} [{}] bp {}{}", f(self.aggr_c), f(self.proof_c), per.join(" "), f(self.bp_c), match &self.repl { Some((n, b)) => format!(" ; {:?} := {} bytes", n, b.len()), None => String::new() })
+    }
+    fn repl(&self, n: Node) -> Option<Vec<u8>> {
+        match &self.repl {
+            Some((m, b)) if *m == n => Some(b.clone()),
+            _ => None,
+        }
+    }
+}
+fn coq_bytes(b: &[u8]) -> String {
+    coq::list(&b.iter().map(|x| x.to_string()).collect::<Vec<_>>())
+}
+fn coq_nums(x: &[u64]) -> String {
+    coq::list(&x.iter().map(|x| x.to_string()).collect::<Vec<_>>())
+}
+/// leaf oracle: what the serde-derived CBOR decoder of the leaf type makes of `b` (first byte 1)
+fn leaf_ssig(b: &[u8], out: &mut EnvInfo) {
+    if b.first() == Some(&1) {
+        let r = std::panic::catch_unwind(|| SingleSignature::from_bytes::<D>(b));
+        let t = match r {
+            Ok(Ok(s)) => {
+                let v = serde_json::to_value(&s).unwrap_or(Value::Null);
+                format!("(Some (Build_ssig {} {} {}))", coq_nums(&nums(&v["indexes"])), coq_nums(&nums(&v["sigma"])), u(&v["signer_index"]))
+            }
+            Ok(Err(_)) => "None".to_string(),
+            Err(_) => return,
+        };
+        out.entries.push(format!("({}, ESsig {})", coq_bytes(b), t));
+    }
+}
+fn leaf_bp(b: &[u8], out: &mut EnvInfo) {
+    if b.first() == Some(&1) {
+        let r = std::panic::catch_unwind(|| vx::MerkleBatchPath::<H>::from_bytes(b));
+        let t = match r {
+            Ok(Ok(s)) => {
+                let v = serde_json::to_value(&s).unwrap_or(Value::Null);
+                format!("(Some (Build_bpath {} {}))", coq::list(&arr(&v["values"]).iter().map(|x| coq_nums(&nums(x))).collect::<Vec<_>>()), coq_nums(&nums(&v["indices"])))
+            }
+            Ok(Err(_)) => "None".to_string(),
+            Err(_) => return,
+        };
+        out.entries.push(format!("({}, EBpath {})", coq_bytes(b), t));
+    }
+}
+fn legacy_frame(parts: &[&[u8]]) -> Vec<u8> {
+    let mut o = vec![];
+    for p in parts {
+        o.extend_from_slice(&(p.len() as u64).to_be_bytes());
+        o.extend_from_slice(p);
+    }
+    o
+}
+fn build_sigreg(sp: &SigParts, i: usize, plan: &Plan, out: &mut EnvInfo) -> Vec<u8> {
+    let sig = plan.repl(Node::Sig(i)).unwrap_or_else(|| if plan.sig_c[i] { sp.sig_cbor.clone() } else { sp.sig_legacy.buf.clone() });
+    leaf_ssig(&sig, out);
+    out.raw.push(sig.clone());
+    let reg = plan.repl(Node::Reg(i)).unwrap_or_else(|| {
+        if plan.reg_c[i] {
+            let vk = plan.repl(Node::Vk(i)).unwrap_or_else(|| sp.vk.clone());
+            let b = cb_env(&[("verification_key_bytes", CbV::Bytes(vk.clone())), ("stake", CbV::U(sp.stake))]);
+            out.entries.push(format!("({}, EReg {} {})", coq_bytes(&b), coq_bytes(&vk), sp.stake));
+            out.raw.push(vk);
+            b
+        } else {
+            sp.reg_legacy.clone()
+        }
+    });
+    out.raw.push(reg.clone());
+    let b = if plan.sigreg_c[i] {
+        let b = cb_env(&[("signature_bytes", CbV::Bytes(sig.clone())), ("registration_entry_bytes", CbV::Bytes(reg.clone()))]);
+        out.entries.push(format!("({}, ESigReg {} {})", coq_bytes(&b), coq_bytes(&sig), coq_bytes(&reg)));
+        b
+    } else {
+        legacy_frame(&[&reg, &sig])
+    };
+    let b = plan.repl(Node::SigReg(i)).unwrap_or(b);
+    out.raw.push(b.clone());
+    b
+}
+fn build_aggr(ap: &AggrParts, plan: &Plan, out: &mut EnvInfo) -> Vec<u8> {
+    let srs: Vec<Vec<u8>> = ap.sigs.iter().enumerate().map(|(i, sp)| build_sigreg(sp, i, plan, out)).collect();
+    let bp = plan.repl(Node::Bp).unwrap_or_else(|| if plan.bp_c { ap.bp_cbor.clone() } else { ap.bp_legacy.buf.clone() });
+    leaf_bp(&bp, out);
+    out.raw.push(bp.clone());
+    let proof = plan.repl(Node::Proof).unwrap_or_else(|| {
+        if plan.proof_c {
+            let b = cb_env(&[("signature_bytes", CbV::Arr(srs.iter().map(|x| CbV::Bytes(x.clone())).collect())), ("batch_proof_bytes", CbV::Bytes(bp.clone()))]);
+            out.entries.push(format!("({}, ECProof {} {})", coq_bytes(&b), coq::list(&srs.iter().map(|x| coq_bytes(x)).collect::<Vec<_>>()), coq_bytes(&bp)));
+            b
+        } else {
+            let mut o = (srs.len() as u64).to_be_bytes().to_vec();
+            for x in &srs {
+                o.extend(legacy_frame(&[x]));
+            }
+            o.extend_from_slice(&bp);
+            o
+        }
+    });
+    out.raw.push(proof.clone());
+    if plan.aggr_c {
+        let b = cb_env(&[("signature_type", CbV::U(plan.sig_type)), ("proof_bytes", CbV::Bytes(proof.clone()))]);
+        if plan.sig_type < 256 {
+            out.entries.push(format!("({}, EAggr {} {})", coq_bytes(&b), plan.sig_type, coq_bytes(&proof)));
+        }
+        b
+    } else {
+        let mut o = vec![plan.sig_type as u8];
+        o.extend_from_slice(&proof);
+        o
+    }
+}
+
+/// replacements of one inner node: (name, bytes)
+fn inner_replacements(rng: &mut Rng, honest_legacy: &Enc, honest_cbor: &[u8], other: &[u8], near: &[u64]) -> Vec<(String, Vec<u8>)> {
+    let mut v: Vec<(String, Vec<u8>)> = vec![];
+    v.push(("empty".into(), vec![]));
+    v.push(("only-version-byte".into(), vec![1]));
+    v.push(("only-zero".into(), vec![0]));
+    for (nm, base) in [("legacy", &honest_legacy.buf[..]), ("cbor", honest_cbor)] {
+        if base.is_empty() {
+            continue;
+        }
+        let mut t = base.to_vec();
+        t.pop();
+        v.push((format!("{}-minus-1", nm), t));
+        let cut = rng.below(base.len() as u64) as usize;
+        v.push((format!("{}-cut-{}", nm, cut), base[..cut].to_vec()));
+        let mut e = base.to_vec();
+        e.push(rng.below(256) as u8);
+        v.push((format!("{}-plus-1", nm), e));
+        let mut e = base.to_vec();
+        e.extend(rng.bytes(24));
+        v.push((format!("{}-plus-24", nm), e));
+        let mut f = base.to_vec();
+        let i = rng.below(base.len() as u64) as usize;
+        f[i] ^= 1 << rng.below(8);
+        v.push((format!("{}-bitflip-{}", nm, i), f));
+    }
+    for &f in &honest_legacy.fields {
+        for &x in near {
+            let mut b = honest_legacy.buf.clone();
+            b[f..f + 8].copy_from_slice(&x.to_be_bytes());
+            v.push((format!("legacy-field-{}:={}", f, x), b));
+        }
+    }
+    v.push(("other-node".into(), other.to_vec()));
+    let n = rng.below(200) as usize;
+    v.push(("random".into(), rng.bytes(n)));
+    v
+}
+
+/// more deterministic families: large inputs with inflated counts (a pre-allocation that is out of
+/// proportion only shows on inputs of tens of kilobytes), deeply nested CBOR on every CBOR-decoding entry
+/// point, deeply nested recursive Merkle map proofs (bincode)
+fn extra_families(pool: &Pool, thorough: bool, fixed: &mut Vec<(Entry, Input)>) {
+    // ---- large inputs
+    let sizes: &[usize] = if thorough { &[1 << 16, 1 << 20] } else { &[1 << 16] };
+    for ty in [Ty::Aggr, Ty::SigReg, Ty::SSig, Ty::BatchPath, Ty::MTree, Ty::BatchCommit] {
+        let Some(h) = pool.by_ty[ty as usize].iter().max_by_key(|h| h.legacy.fields.len()) else { continue };
+        for &size in sizes {
+            for &f in h.legacy.fields.iter().take(3) {
+                let l = size as u64;
+                for v in [l / 8, l / 32, l / 360, l, l * 8, 1 << 32, 1 << 40, u64::MAX / 360, u64::MAX] {
+                    let mut b = h.legacy.buf.clone();
+                    b.resize(size.max(b.len()), 0);
+                    b[f..f + 8].copy_from_slice(&v.to_be_bytes());
+                    fixed.push((Entry::Stm(ty), Input { kind: "large-input".into(), bytes: b, expect: None, note: format!("{} bytes, u64 field at {} := {}", size, f, v), env: None }));
+                }
+            }
+        }
+    }
+    // ---- deeply nested CBOR (arrays, maps, tags) after the version byte
+    let depth = if thorough { 1_000_000 } else { 100_000 };
+    let shapes: Vec<(&str, Vec<u8>)> = vec![
+        ("arrays", std::iter::repeat(0x81u8).take(depth).chain([0u8]).collect()),
+        ("maps", std::iter::repeat([0xa1u8, 0x00]).take(depth).flatten().chain([0u8]).collect()),
+        ("tags", std::iter::repeat(0xc1u8).take(depth).chain([0u8]).collect()),
+        ("indefinite-arrays", std::iter::repeat(0x9fu8).take(depth).collect()),
+    ];
+    for (name, body) in &shapes {
+        let mut b = vec![1u8];
+        b.extend_from_slice(body);
+        for ty in MODELLED {
+            fixed.push((Entry::Stm(ty), Input { kind: "cbor-nesting".into(), bytes: b.clone(), expect: None, note: format!("{} x {}", name, depth), env: None }));
+        }
+        fixed.push((Entry::KeyBytesHex(0), Input { kind: "cbor-nesting".into(), bytes: b.clone(), expect: None, note: format!("{} x {}", name, depth), env: None }));
+        for k in [0u8, 4, 5] {
+            // OpCert (raw CBOR, no version byte), ancillary prover / verifier data
+            let bytes = if k == 0 { body.clone() } else { b.clone() };
+            fixed.push((Entry::Other(k), Input { kind: "cbor-nesting".into(), bytes, expect: None, note: format!("{} x {}", name, depth), env: None }));
+        }
+    }
+    // ---- recursive MKMapProof (bincode): master proof, then sub-proofs [(key, MKMapProof)]
+    if let Some((prefix, leaf)) = &pool.mkmap_nest {
+        for d in if thorough { vec![1usize, 100, 10_000, 100_000, 1_000_000] } else { vec![1usize, 100, 10_000, 200_000] } {
+            let mut b = Vec::with_capacity(prefix.len() * d + leaf.len());
+            for _ in 0..d {
+                b.extend_from_slice(prefix);
+            }
+            b.extend_from_slice(leaf);
+            for e in [Entry::Bincode(1), Entry::KeyBytesHex(5), Entry::Other(7)] {
+                fixed.push((e, Input { kind: "bincode-nesting".into(), bytes: b.clone(), expect: None, note: format!("sub-proof depth {}", d), env: None }));
+            }
+        }
+    }
+}
+fn push_env(fixed: &mut Vec<(Entry, Input)>, ty: Ty, kind: &str, bytes: Vec<u8>, expect: Option<Value>, note: String, env: EnvInfo) {
+    fixed.push((Entry::Stm(ty), Input { kind: kind.into(), bytes, expect, note, env: Some(env) }));
+}
+/// all the envelope cases (deterministic families + PRNG), for `AggregateSignature` and
+/// `SingleSignatureWithRegisteredParty`
+fn envelope_cases(rng: &mut Rng, pool: &Pool, thorough: bool, fixed: &mut Vec<(Entry, Input)>) {
+    let near: Vec<u64> = {
+        #[allow(unused_assignments)]
+        let mut v = vec![u64::MAX, u64::MAX - 7, u64::MAX - 8, 1 << 63, 1 << 61, (1 << 61) - 1, (1 << 61) - 2, (1 << 61) - 7, (1 << 61) - 8, 1 << 40, 0, 1];
+        v.extend([(u64::MAX - 55) / 8, (u64::MAX - 56) / 8, u64::MAX / 32, u64::MAX / 360, u64::MAX / 360 + 1]);
+        if !thorough {
+            // quick tier: the values on both sides of each overflow boundary
+            v = vec![u64::MAX, u64::MAX - 7, 1 << 63, (1 << 61) - 1, (1 << 61) - 8, (u64::MAX - 55) / 8, u64::MAX / 360 + 1, 0];
+        }
+        v
+    };
+    for (ai, ap) in pool.aggr_parts.iter().enumerate() {
+        let n = ap.sigs.len();
+        // pure forms: the CBOR one is byte-for-byte what the real encoder writes (self-check of the writer)
+        for c in [true, false] {
+            let plan = Plan::uniform(n, c);
+            let mut e = EnvInfo::default();
+            let b = build_aggr(ap, &plan, &mut e);
+            if c && b != ap.real_cbor {
+                eprintln!("c05: the harness CBOR writer disagrees with AggregateSignature::to_bytes");
+                std::process::exit(3);
+            }
+            push_env(fixed, Ty::Aggr, if c { "env-honest-cbor" } else { "env-honest-legacy" }, b, Some(ap.val.clone()), plan.describe(), e);
+        }
+        // one node in the other format, systematically; then random mixes
+        let mut plans: Vec<Plan> = vec![];
+        for base in [true, false] {
+            let mut flip = |f: &dyn Fn(&mut Plan)| {
+                let mut p = Plan::uniform(n, base);
+                f(&mut p);
+                plans.push(p);
+            };
+            flip(&|p| p.aggr_c = !base);
+            flip(&|p| p.proof_c = !base);
+            flip(&|p| p.bp_c = !base);
+            for i in 0..n.min(2) {
+                flip(&|p| p.sigreg_c[i] = !base);
+                flip(&|p| p.sig_c[i] = !base);
+                flip(&|p| p.reg_c[i] = !base);
+            }
+        }
+        for _ in 0..(if thorough { 60 } else { 12 }) {
+            plans.push(Plan::random(rng, n));
+        }
+        for plan in &plans {
+            let mut e = EnvInfo::default();
+            let b = build_aggr(ap, plan, &mut e);
+            // a mix of formats is accepted by design ("supports both ... formats" at every level); the value is
+            // compared with the model, the property oracle only asks for a clean return
+            push_env(fixed, Ty::Aggr, "env-mixed", b, None, plan.describe(), e);
+        }
+        // the type tag of the envelope
+        for t in [1u64, 2, 3, 23, 24, 255, 256, u64::MAX] {
+            let mut plan = Plan::uniform(n, true);
+            plan.sig_type = t;
+            let mut e = EnvInfo::default();
+            let b = build_aggr(ap, &plan, &mut e);
+            push_env(fixed, Ty::Aggr, "env-type-tag", b, None, format!("signature_type {}", t), e);
+        }
+        // one inner node replaced, inside CBOR wrappers, legacy wrappers and random wrappers
+        if ai > (if thorough { 1 } else { 0 }) {
+            continue;
+        }
+        let sp = &ap.sigs[0];
+        let reg_cbor = cb_env(&[("verification_key_bytes", CbV::Bytes(sp.vk.clone())), ("stake", CbV::U(sp.stake))]);
+        let reg_enc = Enc { buf: sp.reg_legacy.clone(), fields: vec![] };
+        let vk_enc = Enc { buf: sp.vk.clone(), fields: vec![] };
+        let sr_legacy = {
+            let mut e = Enc::default();
+            e.len_field(sp.reg_legacy.len() as u64);
+            e.raw(&sp.reg_legacy);
+            e.len_field(sp.sig_legacy.buf.len() as u64);
+            e.nested(sp.sig_legacy.clone());
+            e
+        };
+        let sr_cbor = cb_env(&[("signature_bytes", CbV::Bytes(sp.sig_cbor.clone())), ("registration_entry_bytes", CbV::Bytes(reg_cbor.clone()))]);
+        let proof_legacy = {
+            let mut pl = Plan::uniform(n, false);
+            pl.aggr_c = false;
+            let mut e = EnvInfo::default();
+            let b = build_aggr(ap, &pl, &mut e);
+            let h = &pool.by_ty[Ty::Aggr as usize];
+            let fields = h.iter().find(|x| x.legacy.buf == b).map(|x| x.legacy.fields.iter().filter(|f| **f >= 1).map(|f| f - 1).collect()).unwrap_or_default();
+            Enc { buf: b[1..].to_vec(), fields }
+        };
+        let proof_cbor = {
+            let mut e = EnvInfo::default();
+            let b = build_aggr(ap, &Plan::uniform(n, true), &mut e);
+            // proof bytes = the raw entry pushed last
+            let _ = b;
+            e.raw.last().cloned().unwrap_or_default()
+        };
+        let nodes: Vec<(Node, &Enc, &[u8], &[u8])> = vec![
+            (Node::Sig(0), &sp.sig_legacy, &sp.sig_cbor, &sp.reg_legacy),
+            (Node::Reg(0), &reg_enc, &reg_cbor, &sp.sig_legacy.buf),
+            (Node::Vk(0), &vk_enc, &[], &sp.sig_legacy.buf),
+            (Node::SigReg(0), &sr_legacy, &sr_cbor, &sp.sig_legacy.buf),
+            (Node::Bp, &ap.bp_legacy, &ap.bp_cbor, &sp.sig_legacy.buf),
+            (Node::Proof, &proof_legacy, &proof_cbor, &ap.bp_legacy.buf),
+        ];
+        for (node, leg, cb, other) in nodes {
+            for (name, bytes) in inner_replacements(rng, leg, cb, other, &near) {
+                let wrappers: Vec<Plan> = vec![Plan::uniform(n, true), Plan::uniform(n, false), Plan::random(rng, n)];
+                for (wi, mut plan) in wrappers.into_iter().enumerate() {
+                    if node == Node::Vk(0) {
+                        plan.reg_c[0] = true;
+                    }
+                    // field sweeps are long: CBOR wrappers always, the others one time in three
+                    let keep = wi == 0 || !name.starts_with("legacy-field") || rng.chance(1, 3);
+                    if !keep {
+                        continue;
+                    }
+                    plan.repl = Some((node, bytes.clone()));
+                    let mut e = EnvInfo::default();
+                    let b = build_aggr(ap, &plan, &mut e);
+                    push_env(fixed, Ty::Aggr, "env-inner", b, None, format!("{} ; {}", plan.describe(), name), e);
+                    // the same signature with its registered party on its own entry point
+                    if matches!(node, Node::Sig(0) | Node::Reg(0) | Node::Vk(0)) && wi < 2 {
+                        let mut e = EnvInfo::default();
+                        let b = build_sigreg(sp, 0, &plan, &mut e);
+                        push_env(fixed, Ty::SigReg, "env-inner", b, None, format!("{} ; {}", plan.describe(), name), e);
+                    }
+                }
+            }
+        }
+        // CBOR shapes ciborium may or may not take for the envelope fields (no model opinion: clean return only)
+        let deep: Vec<u8> = std::iter::repeat(0x81u8).take(if thorough { 400_000 } else { 100_000 }).chain([0u8]).collect();
+        let proof = proof_cbor.clone();
+        let shapes: Vec<(&str, Vec<(&str, CbV)>)> = vec![
+            ("byte-string-field", vec![("signature_type", CbV::U(0)), ("proof_bytes", CbV::BStr(proof.clone()))]),
+            ("missing-field", vec![("signature_type", CbV::U(0))]),
+            ("duplicated-field", vec![("signature_type", CbV::U(0)), ("proof_bytes", CbV::Bytes(proof.clone())), ("proof_bytes", CbV::Bytes(vec![0; 9]))]),
+            ("unknown-deep-field", vec![("signature_type", CbV::U(0)), ("x", CbV::Raw(deep.clone())), ("proof_bytes", CbV::Bytes(proof.clone()))]),
+            ("element-256", vec![("signature_type", CbV::U(0)), ("proof_bytes", CbV::Arr(vec![CbV::U(1), CbV::U(256), CbV::U(0)]))]),
+            ("negative-element", vec![("signature_type", CbV::U(0)), ("proof_bytes", CbV::Arr(vec![CbV::U(1), CbV::Neg(0)]))]),
+            ("negative-tag", vec![("signature_type", CbV::Neg(0)), ("proof_bytes", CbV::Bytes(proof.clone()))]),
+            ("indefinite-array", vec![("signature_type", CbV::U(0)), ("proof_bytes", CbV::Raw([vec![0x9f], proof.iter().flat_map(|x| { let mut o = vec![]; cb_head(&mut o, 0, *x as u64); o }).collect::<Vec<u8>>(), vec![0xff]].concat()))]),
+            ("declared-length-2^63", vec![("signature_type", CbV::U(0)), ("proof_bytes", CbV::Raw(vec![0x9b, 0x80, 0, 0, 0, 0, 0, 0, 0, 1, 2, 3]))]),
+            ("declared-length-2^64-1", vec![("signature_type", CbV::U(0)), ("proof_bytes", CbV::Raw(vec![0x9b, 0xff, 0xff, 0xff, 0xff, 0xff, 0xff, 0xff, 0xff, 1, 2, 3]))]),
+            ("declared-bytes-2^40", vec![("signature_type", CbV::U(0)), ("proof_bytes", CbV::Raw(vec![0x5b, 0, 0, 1, 0, 0, 0, 0, 0, 1, 2, 3]))]),
+            ("nested-array-proof", vec![("signature_type", CbV::U(0)), ("proof_bytes", CbV::Raw(deep.clone()))]),
+        ];
+        for (name, fields) in shapes {
+            let b = cb_env(&fields);
+            fixed.push((Entry::Stm(Ty::Aggr), Input { kind: "env-shape".into(), bytes: b.clone(), expect: None, note: name.into(), env: None }));
+            fixed.push((Entry::KeyBytesHex(0), Input { kind: "env-shape".into(), bytes: b, expect: None, note: name.into(), env: None }));
+        }
+        // registration entry envelope: the stake in every CBOR integer shape
+        for (name, st) in [("stake-max", CbV::U(u64::MAX)), ("stake-negative", CbV::Neg(5)), ("stake-bignum", CbV::Raw(vec![0xc2, 0x49, 1, 0, 0, 0, 0, 0, 0, 0, 0])), ("stake-float", CbV::Raw(vec![0xfb, 0x40, 0x59, 0, 0, 0, 0, 0, 0])), ("stake-bytes", CbV::BStr(vec![1, 2])), ("stake-text-deep", CbV::Raw(deep.clone()))] {
+            let reg = cb_env(&[("verification_key_bytes", CbV::Bytes(sp.vk.clone())), ("stake", st)]);
+            let b = cb_env(&[("signature_bytes", CbV::Bytes(sp.sig_cbor.clone())), ("registration_entry_bytes", CbV::Bytes(reg))]);
+            fixed.push((Entry::Stm(Ty::SigReg), Input { kind: "env-shape".into(), bytes: b, expect: None, note: name.into(), env: None }));
+        }
+    }
+}
+
+// ------------------------------------------------------------------------------------------------
 // worker / parent plumbing
 
 struct Worker {
@@ -995,12 +1550,19 @@ fn bound(len: usize) -> usize {
     64 * len + (1 << 20)
 }
 
-fn judge(r: &Run, len: usize, expect: &Option<Value>) -> Result<(), String> {
+/// the hand-written legacy decoders (no third-party decoder involved): their pre-allocations are proved
+/// to be <= 45*len (C05_concatenation_proof_alloc, C05_merkle_tree_alloc); anyhow's error objects and
+/// Vec growth stay below 4 KiB + 3*len
+fn bound_legacy(len: usize) -> usize {
+    48 * len + 4096
+}
+fn judge(r: &Run, len: usize, expect: &Option<Value>, legacy_only: bool) -> Result<(), String> {
     if r.class == 2 {
         return Err("decoder panicked".into());
     }
-    if r.max_req > bound(len) {
-        return Err(format!("single allocation request of {} bytes for an input of {} bytes (bound {})", r.max_req, len, bound(len)));
+    let bound = if legacy_only { bound_legacy(len) } else { bound(len) };
+    if r.max_req > bound {
+        return Err(format!("single allocation request of {} bytes for an input of {} bytes (bound {})", r.max_req, len, bound));
     }
     if let Some(v) = expect {
         if r.class != 0 {
@@ -1137,7 +1699,7 @@ fn main() {
             b.extend_from_slice(&count.to_be_bytes());
             b.extend(std::iter::repeat(0u8).take(tail));
             for e in [Entry::Stm(Ty::Aggr), Entry::Common(Ty::Aggr), Entry::KeyBytesHex(0), Entry::KeyStr(0)] {
-                fixed.push((e, Input { kind: "witness-count".into(), bytes: b.clone(), expect: None, note: format!("signature count {}", count) }));
+                fixed.push((e, Input { kind: "witness-count".into(), bytes: b.clone(), expect: None, note: format!("signature count {}", count), env: None }));
             }
         }
     }
@@ -1145,24 +1707,24 @@ fn main() {
         // SingleSignatureWithRegisteredParty: first size field; and nested in a proof with one signature
         let mut b = size.to_be_bytes().to_vec();
         b.extend(std::iter::repeat(0u8).take(24));
-        fixed.push((Entry::Stm(Ty::SigReg), Input { kind: "witness-size".into(), bytes: b.clone(), expect: None, note: format!("reg party size {}", size) }));
+        fixed.push((Entry::Stm(Ty::SigReg), Input { kind: "witness-size".into(), bytes: b.clone(), expect: None, note: format!("reg party size {}", size), env: None }));
         let mut p = vec![0u8];
         p.extend_from_slice(&1u64.to_be_bytes());
         p.extend_from_slice(&size.to_be_bytes());
         p.extend(std::iter::repeat(0u8).take(40));
-        fixed.push((Entry::Stm(Ty::Aggr), Input { kind: "witness-size".into(), bytes: p, expect: None, note: format!("first signature size {}", size) }));
+        fixed.push((Entry::Stm(Ty::Aggr), Input { kind: "witness-size".into(), bytes: p, expect: None, note: format!("first signature size {}", size), env: None }));
         if let Some(h) = pool.by_ty[Ty::SigReg as usize].first() {
             // honest registration entry followed by an inflated signature size
             let mut q = h.legacy.buf.clone();
             let f = h.legacy.fields[1];
             q[f..f + 8].copy_from_slice(&size.to_be_bytes());
-            fixed.push((Entry::Stm(Ty::SigReg), Input { kind: "witness-size".into(), bytes: q, expect: None, note: format!("signature size {}", size) }));
+            fixed.push((Entry::Stm(Ty::SigReg), Input { kind: "witness-size".into(), bytes: q, expect: None, note: format!("signature size {}", size), env: None }));
         }
     }
     for n in [u64::MAX, 1 << 63, (1 << 63) + 1, 1 << 40, 1 << 62, 0, 1, 2, 3] {
         let mut b = n.to_be_bytes().to_vec();
         b.extend(std::iter::repeat(7u8).take(64));
-        fixed.push((Entry::Stm(Ty::MTree), Input { kind: "witness-count".into(), bytes: b, expect: None, note: format!("leaf count {}", n) }));
+        fixed.push((Entry::Stm(Ty::MTree), Input { kind: "witness-count".into(), bytes: b, expect: None, note: format!("leaf count {}", n), env: None }));
     }
 
     // offset-arithmetic boundaries, swept deterministically: a decoder that computes
@@ -1184,20 +1746,30 @@ fn main() {
                 for &v in &sweep {
                     let mut b = h.legacy.buf.clone();
                     b[f..f + 8].copy_from_slice(&v.to_be_bytes());
-                    fixed.push((Entry::Stm(ty), Input { kind: "boundary-sweep".into(), bytes: b, expect: None, note: format!("u64 field at {} := {}", f, v) }));
+                    fixed.push((Entry::Stm(ty), Input { kind: "boundary-sweep".into(), bytes: b, expect: None, note: format!("u64 field at {} := {}", f, v), env: None }));
                 }
             }
         }
     }
 
+    envelope_cases(&mut rng, &pool, args.thorough, &mut fixed);
+    extra_families(&pool, args.thorough, &mut fixed);
+
     let n_rand: u64 = if args.thorough { 400_000 } else { 20_000 };
     let total = fixed.len() as u64 + n_rand;
     let mut fixed_it = fixed.into_iter();
+    // the driver compares at most max_model_cases_<tier> cases with the model and thins by stride when there
+    // are more; the harness thins the two big families itself (deterministically) so that every envelope and
+    // witness case is compared
+    let (sweep_every, random_every): (u64, u64) = if args.thorough { (2, 24) } else { (8, 3) };
+    let (mut sweep_seen, mut random_seen) = (0u64, 0u64);
     for _ in 0..total {
         // ---- choose entry and input (all randomness is consumed whether or not the case is wanted)
+        let mut is_fixed = true;
         let (entry, input) = match fixed_it.next() {
             Some(x) => x,
             None => {
+                is_fixed = false;
                 let e = *rng.pick(&entries);
                 let inp = match e {
                     Entry::Stm(ty) | Entry::Common(ty) | Entry::CommonHex(ty) => gen_for_ty(&mut rng, &pool, ty),
@@ -1210,31 +1782,31 @@ fn main() {
                     Entry::JsonStm(ty) => {
                         let hs = &pool.by_ty[ty as usize];
                         if hs.is_empty() {
-                            Input { kind: "random".into(), bytes: random_bytes(&mut rng), expect: None, note: String::new() }
+                            Input { kind: "random".into(), bytes: random_bytes(&mut rng), expect: None, note: String::new(), env: None }
                         } else {
                             let h = rng.pick(hs).clone();
                             if rng.chance(1, 4) {
-                                Input { kind: "honest-json".into(), bytes: h.json.clone().into_bytes(), expect: Some(h.val.clone()), note: String::new() }
+                                Input { kind: "honest-json".into(), bytes: h.json.clone().into_bytes(), expect: Some(h.val.clone()), note: String::new(), env: None }
                             } else {
                                 let (s, note) = mutate_json(&mut rng, &h.json);
-                                Input { kind: "json-mutated".into(), bytes: s.into_bytes(), expect: None, note }
+                                Input { kind: "json-mutated".into(), bytes: s.into_bytes(), expect: None, note, env: None }
                             }
                         }
                     }
                     Entry::JsonMsg(k) => {
                         let doc = &pool.messages.iter().find(|(i, _)| *i == k as usize).unwrap().1;
                         if rng.chance(1, 5) {
-                            Input { kind: "honest-json".into(), bytes: doc.clone().into_bytes(), expect: None, note: String::new() }
+                            Input { kind: "honest-json".into(), bytes: doc.clone().into_bytes(), expect: None, note: String::new(), env: None }
                         } else {
                             let (s, note) = mutate_json(&mut rng, doc);
-                            Input { kind: "json-mutated".into(), bytes: s.into_bytes(), expect: None, note }
+                            Input { kind: "json-mutated".into(), bytes: s.into_bytes(), expect: None, note, env: None }
                         }
                     }
                     Entry::Hex => {
                         let n = rng.below(40) as usize;
                         let alphabet: &[u8] = if rng.chance(2, 3) { b"0123456789abcdefABCDEF" } else { b"0123456789abcdefABCDEFgG xz/:@`\n\x00\x7f\xc3\xa9" };
                         let s: Vec<u8> = (0..n).map(|_| *rng.pick(alphabet)).collect();
-                        Input { kind: "hex-string".into(), bytes: s, expect: None, note: String::new() }
+                        Input { kind: "hex-string".into(), bytes: s, expect: None, note: String::new(), env: None }
                     }
                 };
                 (e, inp)
@@ -1293,11 +1865,25 @@ fn main() {
             Entry::JsonMsg(_) | Entry::Hex => String::from_utf8_lossy(&input.bytes).into_owned(),
             _ => String::new(),
         };
+        // (counted whether or not the case is wanted: replays see the same thinning)
+        let thinned = if input.kind == "boundary-sweep" {
+            sweep_seen += 1;
+            (sweep_seen - 1) % sweep_every != 0
+        } else if !is_fixed && matches!(entry, Entry::Stm(_) | Entry::Hex) {
+            random_seen += 1;
+            (random_seen - 1) % random_every != 0
+        } else {
+            false
+        };
         let Some(id) = w.wants() else { continue };
 
         let uses_text = !text.is_empty() || matches!(entry, Entry::JsonMsg(_) | Entry::Hex | Entry::CommonHex(_) | Entry::KeyBytesHex(_) | Entry::KeyJsonHex(_) | Entry::KeyStr(_) | Entry::KeySerde(_));
         let len = if uses_text { text.len() } else { input.bytes.len() };
-        let desc = if uses_text {
+        let desc = if len > 300_000 {
+            // the whole input is rebuilt by a replay (--only id); the note says how it is made
+            let head = if uses_text { text.chars().take(400).collect::<String>() } else { hex::encode(&input.bytes[..200]) };
+            json!({"entry": format!("{:?}", entry), "input_head": head, "input_len": len, "note": input.note})
+        } else if uses_text {
             json!({"entry": format!("{:?}", entry), "text": text, "note": input.note})
         } else {
             json!({"entry": format!("{:?}", entry), "bytes_hex": hex::encode(&input.bytes), "note": input.note})
@@ -1305,18 +1891,20 @@ fn main() {
         let key = format!("{:?}/{:016x}", entry, fnv(if uses_text { text.as_bytes() } else { &input.bytes }));
         // model term (placeholder for the implementation's observation until it is known)
         let modelled = match entry {
-            Entry::Stm(_) => input.bytes.first() != Some(&1),
+            Entry::Stm(_) => (input.bytes.first() != Some(&1) || input.env.is_some()) && input.bytes.len() <= 20_000,
             Entry::Hex => text.is_ascii(),
             _ => false,
         };
+        let modelled = modelled && !thinned;
         let model_pre = match entry {
-            Entry::Stm(ty) if modelled => Some(model_term(&pool, ty, &input.bytes, "@IMPL@", wrapping)),
+            Entry::Stm(ty) if modelled => Some(model_term(&pool, ty, &input.bytes, "@IMPL@", wrapping, input.env.as_ref())),
             Entry::Hex if modelled => Some(format!("run_hex {}", coq::list(&text.bytes().map(|x| x.to_string()).collect::<Vec<_>>()))),
             _ => None,
         };
         w.begin(id, &format!("{}/{}", entry_class(entry), kind), &desc, &model_pre, &key);
         let r = exec(entry, &input.bytes, &text);
-        let verdict = judge(&r, len, &expect);
+        let legacy_only = matches!(entry, Entry::Stm(_)) && input.env.is_none() && input.bytes.first() != Some(&1) && pure_legacy_kind(&input.kind);
+        let verdict = judge(&r, len, &expect, legacy_only);
         let impl_obs = match entry {
             Entry::Stm(ty) => obs_run(ty, &r),
             Entry::Hex => match r.class {
@@ -1347,6 +1935,11 @@ fn main() {
     w.out.flush().unwrap();
 }
 
+/// a legacy layout can hold CBOR-encoded inner values (first byte 1 of a nested byte string), which brings
+/// ciborium's own buffers in: only the deterministic families made from pure legacy layouts get the tight bound
+fn pure_legacy_kind(kind: &str) -> bool {
+    kind == "boundary-sweep" || kind == "large-input" || kind.starts_with("witness") || kind == "honest-legacy" || kind == "legacy-truncate" || kind == "legacy-extend"
+}
 fn entry_class(e: Entry) -> &'static str {
     match e {
         Entry::Stm(_) => "stm-bytes",
@@ -1376,17 +1969,30 @@ fn gen_third_party(rng: &mut Rng, pool: &Pool, k: u8) -> Input {
     match honest {
         Some(h) if rng.chance(4, 5) => {
             if rng.chance(1, 5) {
-                Input { kind: "honest-bytes".into(), bytes: h.clone(), expect: None, note: String::new() }
+                Input { kind: "honest-bytes".into(), bytes: h.clone(), expect: None, note: String::new(), env: None }
+            } else if (k == 4 || k == 5) && rng.chance(1, 3) && h.len() >= 2 {
+                // bincode's variable-length integers: 0xfb..0xfe announce a little-endian u16 / u32 / u64 / u128
+                let mut b = h.clone();
+                let i = rng.below(b.len() as u64) as usize;
+                let v = *rng.pick(&SPECIAL);
+                let (tag, n) = *rng.pick(&[(0xfbu8, 2usize), (0xfc, 4), (0xfd, 8), (0xfd, 8), (0xfe, 16)]);
+                let mut le = (v as u128).to_le_bytes().to_vec();
+                le.truncate(n);
+                b.truncate(i);
+                b.push(tag);
+                b.extend_from_slice(&le);
+                b.extend_from_slice(&h[(i + 1).min(h.len())..]);
+                Input { kind: "bytes-bincode-inflate".into(), bytes: b, expect: None, note: format!("varint at {} := tag {:#x} value {}", i, tag, v), env: None }
             } else {
                 let (kd, b, note) = mutate_bytes(rng, h, &[]);
-                Input { kind: format!("bytes-{}", kd), bytes: b, expect: None, note }
+                Input { kind: format!("bytes-{}", kd), bytes: b, expect: None, note, env: None }
             }
         }
         _ => {
             // fixed-size third-party values: right and wrong sizes
             let n = *rng.pick(&[0usize, 31, 32, 33, 63, 64, 65, 447, 448, 449]);
             let b = if rng.coin() { rng.bytes(n) } else { random_bytes(rng) };
-            Input { kind: "random".into(), bytes: b, expect: None, note: String::new() }
+            Input { kind: "random".into(), bytes: b, expect: None, note: String::new(), env: None }
         }
     }
 }
